@@ -85,7 +85,6 @@ def cApiOf (j : Json) : P CApi := do
 
 structure CExtTables where
   pref : Std.HashMap (String × String) Bool := {}
-  fltOfStr : Std.HashMap String (Option Nat) := {}
   strptimeOk : Std.HashMap (String × String) Bool := {}
 
 def cExtTablesOf (j : Json) : P CExtTables := do
@@ -98,10 +97,6 @@ def cExtTablesOf (j : Json) : P CExtTables := do
     match r with
     | [a, b, c] => t := { t with pref := t.pref.insert (← strOf a, ← strOf b) (← boolOf c) }
     | _ => throw "prefix row"
-  for r in ← rows "fltOfStr" do
-    match r with
-    | [a, b] => t := { t with fltOfStr := t.fltOfStr.insert (← strOf a) (← optOf natOf b) }
-    | _ => throw "fltOfStr row"
   for r in ← rows "strptimeOk" do
     match r with
     | [a, b, c] => t := { t with strptimeOk := t.strptimeOk.insert (← strOf a, ← strOf b) (← boolOf c) }
@@ -111,9 +106,6 @@ def cExtTablesOf (j : Json) : P CExtTables := do
 /-- `alt` selects which of two different answers a table miss gets -/
 def mkCExt (t : CExtTables) (alt : Bool) : CExt where
   prefixMatch p s := (t.pref[(p, s)]?).getD alt
-  fltOfStr s := match t.fltOfStr[s]? with
-    | some r => r
-    | none => if alt then none else some 0
   strptimeOk f s := (t.strptimeOk[(f, s)]?).getD alt
 
 /-- evaluate under both miss policies of both table sets -/
@@ -154,7 +146,7 @@ def handle (op : String) (j : Json) : Except String Json := do
       let rt : Json := match env?, validatorOf t, py with
         | some env, some vt, some v => resTo pyValTo (validate E env vt v)
         | _, _, _ => Json.null
-      Json.mkObj [("check", crTo litTo r), ("py", optTo pyValTo py), ("validate", rt),
+      Json.mkObj [("check", crTo litTo r), ("py", optTo pyValTo py), ("validate", rt), ("tyKnown", Json.bool (tyKnown us t)),
         ("unionsAgree", match env? with | some env => Json.bool (unionsAgree us env) | none => Json.null)])
   | "decl.ircheck.example" =>
     let api ← cApiOf (← jobj j "api")
@@ -186,6 +178,7 @@ def handle (op : String) (j : Json) : Except String Json := do
           Json.mkObj [("decode", resTo pyValTo dec), ("encode", enc)]
         | _, _, _ => Json.null
       Json.mkObj [("check", crTo (fun _ => Json.null) r), ("doc", optTo jsonTo doc), ("run", run),
+        ("tyKnown", Json.bool (apiKnown api)),
         ("envWF", match env? with | some env => Json.bool (envWF env) | none => Json.null),
         ("envWFX", match env? with | some env => Json.bool (envWFX env) | none => Json.null),
         ("unionsAgree", match env? with | some env => Json.bool (unionsAgree api.unions env) | none => Json.null)])
